@@ -57,15 +57,30 @@ def impl_case(case):
         m.start(im)
     outs = []
 
+    crashed = []
+
+    def guarded(m, name, *a):
+        """A monitor that cannot even inspect the gateway (state objects of the wrong kind, ...) must not take
+        the whole run down: recorded once per monitor, reported as a tie that no longer checks."""
+        try:
+            getattr(m, name)(*a)
+        except Exception as exc:      # noqa: BLE001
+            if m.name not in crashed:
+                crashed.append(m.name)
+                import traceback
+                m.violations.append((f"monitor-crash/{m.name}/{type(exc).__name__}",
+                                     f"monitor {m.name}.{name} could not inspect the gateway: {exc!r} "
+                                     + traceback.format_exc(limit=3)[-300:]))
+
     def run_op(o):
         trk.before(o)
         for m in mons:
-            m.before(im, o, trk)
+            guarded(m, "before", im, o, trk)
         start = len(im.log)
         out = im.op(o)
         events = im.log[start:]
         for m in mons:
-            m.after(im, o, events, trk)
+            guarded(m, "after", im, o, events, trk)
         trk.after(o)
         return out
 
@@ -110,6 +125,9 @@ def impl_case(case):
     stats = {}
     if im.failed_saves:
         stats["harness:periodic-saves-failed-in-the-serialiser"] = im.failed_saves
+    notes = {m.name: m.notes for m in mons if getattr(m, "notes", None)}
+    if notes:
+        stats["__notes__"] = notes
     if im.unfailed_saves:
         stats["harness:hooked-saves-that-did-not-fail"] = im.unfailed_saves
     for m in mons:
@@ -263,9 +281,14 @@ def run_cases(ctx, res, cases, monitors, scope, tag="gw"):
         c = r["case"]
         res.evaluations += 1
         for k, v in r["stats"].items():
-            res.count(k, v)
+            if not k.startswith("__"):
+                res.count(k, v)
         res.count(f"cfg:{c['cfg']['ver']}:{c['cfg']['flavour']}{':mqtt' if c['cfg'].get('mqtt') else ''}")
         for (mon, key, what) in r["viol"]:
+            if key.startswith("monitor-crash/"):
+                res.violate(key, f"[{c['id']}] {what}", {"cfg": c["cfg"], "ops": c["ops"], "monitors": monitors},
+                            kind="harness", found_input=False)
+                continue
             res.violate(key, f"[{c['id']}] {what}", {"cfg": c["cfg"], "ops": c["ops"], "monitors": monitors})
         if r["model"] is not None:
             d = diff(c, r["impl"], r["model"], scope)
